@@ -37,6 +37,7 @@ DEFAULTS = {
     'sample_rate': 100.0,
     'profile': None,           # per-template amplitude level permutations (list of lists) or None
     'spike_samples': None,     # explicit list or None
+    'template_dtype': 'float32',   # storage dtype of templates.npy (float32 | float64)
     'feat_dtype': 'float32',   # storage dtype of pc_features / template_features
     'nonpositive_spikes': (),  # spikes whose first-component features are all <= 0
     'n_loc': None,             # width of the feature tables (default min(n_channels, 3))
@@ -230,7 +231,7 @@ def make_dataset(d, spec=None):
         truth['channel_probes'] = None
 
     # --- templates
-    T = default_templates(nt, nsw, nc, fill, s['profile'])
+    T = default_templates(nt, nsw, nc, fill, s['profile']).astype(s['template_dtype'])
     if s['content'] == 'nan_template':
         T[nt - 1] = np.nan
     if sparse_t and s['sparse_cols'] is not None:
